@@ -14,14 +14,18 @@ pub fn stdin_records() -> impl Iterator<Item = Value> {
     })
 }
 
-pub struct Out(BufWriter<std::io::Stdout>);
+pub struct Out(BufWriter<std::io::Stdout>, bool);
 impl Out {
     pub fn new() -> Self {
-        Out(BufWriter::with_capacity(1 << 20, std::io::stdout()))
+        // worker mode (under `isolate`): one flushed line per record
+        Out(BufWriter::with_capacity(1 << 20, std::io::stdout()), std::env::var("SNT_FLUSH").is_ok())
     }
     pub fn rec(&mut self, v: &Value) {
         serde_json::to_writer(&mut self.0, v).unwrap();
         self.0.write_all(b"\n").unwrap();
+        if self.1 {
+            self.0.flush().unwrap();
+        }
     }
     pub fn flush(&mut self) {
         self.0.flush().unwrap();
